@@ -7,10 +7,13 @@ import (
 	"io"
 	"os"
 	"path/filepath"
+	"sort"
+	"strings"
 	"sync/atomic"
 	"testing"
 
 	"github.com/evolbioinfo/goalign/align"
+	"github.com/evolbioinfo/goalign/io/phylip"
 	"github.com/evolbioinfo/goalign/io/utils"
 	"github.com/ulikunitz/xz"
 	"pgregory.net/rapid"
@@ -61,13 +64,157 @@ func compress(text string, ext string) []byte {
 
 var exts = []string{"", ".gz", ".xz"}
 
+func validExt(e string) bool { return e == "" || e == ".gz" || e == ".xz" }
+
+func extName(e string) string {
+	if e == "" {
+		return "plain"
+	}
+	return e
+}
+
+// ---- how a text is handed to the writer ----------------------------------------------------------
+
+// writePlan: the text is cut at the given positions (per mille of its length) and the pieces are
+// given in turn to WriteString or Write([]byte)
+type writePlan struct {
+	Cuts     []int  `json:"cuts,omitempty"`
+	UseWrite []bool `json:"use_write,omitempty"` // piece i uses Write([]byte) if UseWrite[i % len]
+	CloseVia bool   `json:"close_via,omitempty"` // utils.CloseWriteFile instead of Close
+}
+
+func genPlan(t *rapid.T) writePlan {
+	var p writePlan
+	n := rapid.IntRange(0, 4).Draw(t, "ncuts")
+	for i := 0; i < n; i++ {
+		// IntRange is biased to its ends: many tiny first pieces and tiny last pieces
+		p.Cuts = append(p.Cuts, rapid.IntRange(0, 1000).Draw(t, "cut"))
+	}
+	m := rapid.IntRange(1, 3).Draw(t, "nmodes")
+	for i := 0; i < m; i++ {
+		p.UseWrite = append(p.UseWrite, rapid.Bool().Draw(t, "write"))
+	}
+	p.CloseVia = rapid.Bool().Draw(t, "closevia")
+	return p
+}
+
+func (p writePlan) valid() bool {
+	if len(p.Cuts) > 16 {
+		return false
+	}
+	for _, c := range p.Cuts {
+		if c < 0 || c > 1000 {
+			return false
+		}
+	}
+	return true
+}
+
+// pieces cuts a list of texts further at the plan's positions (relative to the whole)
+func (p writePlan) pieces(texts []string) []string {
+	total := 0
+	for _, s := range texts {
+		total += len(s)
+	}
+	var cuts []int
+	for _, c := range p.Cuts {
+		cuts = append(cuts, int(int64(c)*int64(total)/1000))
+	}
+	sort.Ints(cuts)
+	var out []string
+	off := 0
+	for _, s := range texts {
+		start := 0
+		for _, c := range cuts {
+			if c > off+start && c < off+len(s) {
+				out = append(out, s[start:c-off])
+				start = c - off
+			}
+		}
+		out = append(out, s[start:])
+		off += len(s)
+	}
+	return out
+}
+
+// writeFile writes the pieces through utils.OpenWriteFile and checks, with an independent
+// reader, that the file holds exactly their concatenation in the container its name announces
+func writeFile(path, ext string, pieces []string, p writePlan) error {
+	f, e := utils.OpenWriteFile(path)
+	if e != nil {
+		return fmt.Errorf("OpenWriteFile(%q): %v", filepath.Base(path), e)
+	}
+	sizes := make([]int, len(pieces))
+	for i, part := range pieces {
+		sizes[i] = len(part)
+		var n int
+		if len(p.UseWrite) > 0 && p.UseWrite[i%len(p.UseWrite)] {
+			n, e = f.Write([]byte(part))
+		} else {
+			n, e = f.WriteString(part)
+		}
+		if e != nil || n != len(part) {
+			return fmt.Errorf("writing piece %d (%d bytes) to %q: n=%d, error %v", i, len(part), filepath.Base(path), n, e)
+		}
+	}
+	if p.CloseVia {
+		utils.CloseWriteFile(f, path)
+	} else if e = f.Close(); e != nil {
+		return fmt.Errorf("closing %q: %v", filepath.Base(path), e)
+	}
+	text := strings.Join(pieces, "")
+	raw, e := os.ReadFile(path)
+	if e != nil {
+		return fmt.Errorf("harness: %v", e)
+	}
+	back, e := decompress(raw, ext)
+	if e != nil {
+		return fmt.Errorf("the %q file written through OpenWriteFile is not readable by an independent %s reader: %v (%d bytes on disk for %d bytes of text, written in pieces of %v bytes)", ext, ext, e, len(raw), len(text), sizes)
+	}
+	if string(back) != text {
+		return fmt.Errorf("the file written through OpenWriteFile (%q) in pieces of %v bytes holds %d bytes instead of the %d written; first difference at byte %d", ext, sizes, len(back), len(text), firstDiff(string(back), text))
+	}
+	return nil
+}
+
+func classifyPlan(o *pbt.Outcome, pieces []string, ext string) {
+	// a small piece still pending in the 4096-byte buffer followed by one that does not fit
+	pending := 0
+	mixed := false
+	for _, s := range pieces {
+		if pending > 0 && len(s) > 4096-pending {
+			mixed = true
+		}
+		pending = (pending + len(s)) % 4096
+	}
+	if mixed {
+		o.Class("file:%s a write larger than the free buffer space after a smaller one", extName(ext))
+	}
+	o.Class("file:%s pieces=%d", extName(ext), len(pieces))
+}
+
+func textClass(n int) string {
+	switch {
+	case n > 65536:
+		return "text > 64 KiB"
+	case n > 32768:
+		return "text > 32 KiB"
+	case n > 8192:
+		return "text > 8 KiB"
+	case n > 4096:
+		return "text > 4 KiB"
+	}
+	return "text <= 4 KiB"
+}
+
+// ---- one alignment per file, every format ----------------------------------------------------------
+
 type fileCase struct {
-	Ali      gen.Ali `json:"ali"`
-	Cfg      cfg     `json:"cfg"`
-	Ext      string  `json:"ext"`
-	Pieces   int     `json:"pieces"`    // the text is handed to the writer in this many pieces
-	UseWrite bool    `json:"use_write"` // Write([]byte) instead of WriteString
-	CloseVia bool    `json:"close_via"` // utils.CloseWriteFile instead of Close
+	Ali    gen.Ali   `json:"ali"`
+	Repeat int       `json:"repeat,omitempty"`
+	Cfg    cfg       `json:"cfg"`
+	Ext    string    `json:"ext"`
+	Plan   writePlan `json:"plan"`
 }
 
 var fileSeq int64
@@ -77,64 +224,31 @@ func genFile(t *rapid.T) fileCase {
 	var c fileCase
 	c.Cfg = genCfg(t, "cfg")
 	c.Ext = rapid.SampledFrom(exts).Draw(t, "ext")
-	max := maxLen()
-	if rapid.IntRange(0, 7).Draw(t, "large") == 0 {
-		max = 1000 // more than the 4096 bytes of the buffered writer
-	}
-	c.Ali = genAli(t, domOf(c.Cfg), max, c.Cfg)
-	c.Pieces = rapid.IntRange(1, 3).Draw(t, "pieces")
-	c.UseWrite = rapid.Bool().Draw(t, "write")
-	c.CloseVia = rapid.Bool().Draw(t, "closevia")
+	c.Ali, c.Repeat = genSized(t, domOf(c.Cfg), rapid.SampledFrom(singleSizes).Draw(t, "size"), c.Cfg)
+	c.Plan = genPlan(t)
 	return c
 }
 
 func checkFile(c fileCase) (o pbt.Outcome, err error) {
-	if !c.Cfg.valid() || !inDomain(c.Ali, domOf(c.Cfg)) || (c.Ext != "" && c.Ext != ".gz" && c.Ext != ".xz") || c.Pieces < 1 || c.Pieces > 8 {
+	if !c.Cfg.valid() || !inDomain(c.Ali, domOf(c.Cfg)) || !validExt(c.Ext) || !c.Plan.valid() || c.Repeat < 0 || c.Repeat > maxRepeat {
 		o.Skip = true
 		return o, nil
 	}
-	al, want, err := buildModel(c.Ali)
+	full := expand(c.Ali, c.Repeat)
+	al, want, err := buildModel(full)
 	if err != nil {
 		return o, err
 	}
 	text := writeText(al, c.Cfg)
 	path := filepath.Join(fileDir, fmt.Sprintf("a%d.%s%s", atomic.AddInt64(&fileSeq, 1), c.Cfg.Format, c.Ext))
 	defer os.Remove(path)
-	f, e := utils.OpenWriteFile(path)
-	if e != nil {
-		return o, fmt.Errorf("OpenWriteFile(%q): %v", filepath.Base(path), e)
-	}
-	for i := 0; i < c.Pieces; i++ {
-		part := text[i*len(text)/c.Pieces : (i+1)*len(text)/c.Pieces]
-		var n int
-		if c.UseWrite {
-			n, e = f.Write([]byte(part))
-		} else {
-			n, e = f.WriteString(part)
-		}
-		if e != nil || n != len(part) {
-			return o, fmt.Errorf("writing %d bytes to %q: n=%d, error %v", len(part), filepath.Base(path), n, e)
-		}
-	}
-	if c.CloseVia {
-		utils.CloseWriteFile(f, path)
-	} else if e = f.Close(); e != nil {
-		return o, fmt.Errorf("closing %q: %v", filepath.Base(path), e)
-	}
-	// the file holds exactly the text, in the container its extension announces
-	raw, e := os.ReadFile(path)
-	if e != nil {
-		return o, fmt.Errorf("harness: %v", e)
-	}
-	back, e := decompress(raw, c.Ext)
-	if e != nil {
-		return o, fmt.Errorf("the %q file written through OpenWriteFile is not readable by an independent %s reader: %v (%d bytes on disk for %d bytes of text)", c.Ext, c.Ext, e, len(raw), len(text))
-	}
-	if string(back) != text {
-		return o, fmt.Errorf("the file written through OpenWriteFile (%q) holds %d bytes instead of the %d written; first difference at byte %d", c.Ext, len(back), len(text), firstDiff(string(back), text))
+	pieces := c.Plan.pieces([]string{text})
+	if err = writeFile(path, c.Ext, pieces, c.Plan); err != nil {
+		return o, err
 	}
 	// and it is read back to the same alignment
 	var got align.Alignment
+	var e error
 	viaReadAlign := c.Cfg.Format != "stockholm" && !c.Cfg.Strict
 	if viaReadAlign {
 		got, e = utils.ReadAlign(path, formatCode(c.Cfg.Format), align.BOTH)
@@ -155,18 +269,12 @@ func checkFile(c fileCase) (o pbt.Outcome, err error) {
 	if e = same(got, want); e != nil {
 		return o, fmt.Errorf("%s file with extension %q: %v\ntext: %s", c.Cfg, c.Ext, e, excerpt(text))
 	}
-	nt := classify(&o, "", c.Cfg, c.Ali)
-	ext := c.Ext
-	if ext == "" {
-		ext = "plain"
-	}
-	o.Class("file:%s", ext)
-	o.Class("file:%s %s", ext, c.Cfg.Format)
-	if len(text) > 4096 {
-		o.Class("file:%s text > 4096 bytes", ext)
-	} else {
-		o.Class("file:%s text <= 4096 bytes", ext)
-	}
+	nt := classify(&o, "", c.Cfg, full)
+	o.Class("file:%s", extName(c.Ext))
+	o.Class("file:%s %s", extName(c.Ext), c.Cfg.Format)
+	o.Class("file:%s %s", extName(c.Ext), textClass(len(text)))
+	o.Class("%s %s", c.Cfg.Format, textClass(len(text)))
+	classifyPlan(&o, pieces, c.Ext)
 	if viaReadAlign {
 		o.Class("read through ReadAlign")
 	} else {
@@ -182,11 +290,159 @@ func TestFileLayer(t *testing.T) {
 	pbt.Run(t, genFile, checkFile)
 }
 
-// input side alone: a file compressed by the harness is read through GetReader
+// ---- lists of alignments in one file: multi-Phylip streams of mixed sizes ---------------------
+
+type fstreamCase struct {
+	Alis   []gen.Ali `json:"alis"`
+	Repeat []int     `json:"repeat"`
+	Opts   []phyOpt  `json:"opts"`
+	Strict bool      `json:"strict"`
+	Ext    string    `json:"ext"`
+	Plan   writePlan `json:"plan"`
+	// Reader: "auto" = GetReader + ParseMultiAlignmentsAuto with the file as closer (what the
+	// command line does with --auto-detect); "multiple" = GetReader + phylip ParseMultiple (-p)
+	Reader string `json:"reader"`
+}
+
+func genSizedStream(t *rapid.T, d dom, strict bool, min, max int) (alis []gen.Ali, reps []int, opts []phyOpt) {
+	k := rapid.IntRange(min, max).Draw(t, "k")
+	for i := 0; i < k; i++ {
+		op := phyOpt{rapid.Bool().Draw(t, "oneline"), rapid.Bool().Draw(t, "noblock")}
+		a, rep := genSized(t, d, rapid.SampledFrom(streamSizes).Draw(t, "size"), cfg{Format: "phylip", Strict: strict, OneLine: op.OneLine, NoBlock: op.NoBlock})
+		alis, reps, opts = append(alis, a), append(reps, rep), append(opts, op)
+	}
+	return
+}
+
+func genFStream(t *rapid.T) fstreamCase {
+	var c fstreamCase
+	c.Strict = rapid.Bool().Draw(t, "strict")
+	c.Ext = rapid.SampledFrom(exts).Draw(t, "ext")
+	c.Reader = rapid.SampledFrom([]string{"auto", "multiple"}).Draw(t, "reader")
+	c.Alis, c.Repeat, c.Opts = genSizedStream(t, domOf(cfg{Format: "phylip", Strict: c.Strict}), c.Strict, 2, 6)
+	c.Plan = genPlan(t)
+	return c
+}
+
+func validStream(alis []gen.Ali, reps []int, opts []phyOpt, d dom) bool {
+	if len(alis) == 0 || len(alis) > 12 || len(opts) != len(alis) || len(reps) > len(alis) {
+		return false
+	}
+	for i, a := range alis {
+		if !inDomain(a, d) || repAt(reps, i) > maxRepeat {
+			return false
+		}
+	}
+	return true
+}
+
+func checkFStream(c fstreamCase) (o pbt.Outcome, err error) {
+	d := domOf(cfg{Format: "phylip", Strict: c.Strict})
+	if !validStream(c.Alis, c.Repeat, c.Opts, d) || !validExt(c.Ext) || !c.Plan.valid() || (c.Reader != "auto" && c.Reader != "multiple") {
+		o.Skip = true
+		return o, nil
+	}
+	texts, want, err := buildTexts(c.Alis, c.Repeat, c.Strict, c.Opts)
+	if err != nil {
+		return o, err
+	}
+	total := 0
+	for _, s := range texts {
+		total += len(s)
+	}
+	path := filepath.Join(fileDir, fmt.Sprintf("s%d.phy%s", atomic.AddInt64(&fileSeq, 1), c.Ext))
+	defer os.Remove(path)
+	// one write per alignment (what goalign reformat phylip does), cut further by the plan
+	pieces := c.Plan.pieces(texts)
+	if err = writeFile(path, c.Ext, pieces, c.Plan); err != nil {
+		return o, err
+	}
+	sizes := make([]int, len(texts))
+	for i := range texts {
+		sizes[i] = len(texts[i])
+	}
+	what := fmt.Sprintf("stream of %d Phylip alignments (texts of %v bytes) in a %s file", len(texts), sizes, extName(c.Ext))
+	closer, r, e := utils.GetReader(path)
+	if e != nil {
+		return o, fmt.Errorf("GetReader(%q): %v", filepath.Base(path), e)
+	}
+	var got []align.Alignment
+	switch c.Reader {
+	case "auto":
+		ach, format, e := utils.ParseMultiAlignmentsAuto(closer, r, c.Strict, align.BOTH)
+		if e != nil {
+			return o, fmt.Errorf("%s: ParseMultiAlignmentsAuto: %v", what, e)
+		}
+		if format != align.FORMAT_PHYLIP {
+			return o, fmt.Errorf("%s: ParseMultiAlignmentsAuto reports format %d", what, format)
+		}
+		if got, e = drain(ach.Achan, len(want)+3); e != nil {
+			return o, fmt.Errorf("%s: ParseMultiAlignmentsAuto: %v", what, e)
+		}
+		if ach.Err != nil {
+			return o, fmt.Errorf("%s: ParseMultiAlignmentsAuto (file passed as closer) ends with an error after %d of %d alignments: %v", what, len(got), len(want), ach.Err)
+		}
+	default:
+		p := phylip.NewParser(r, c.Strict)
+		ch := &align.AlignChannel{Achan: make(chan align.Alignment, 15)}
+		go p.ParseMultiple(ch)
+		if got, e = drain(ch.Achan, len(want)+3); e != nil {
+			return o, fmt.Errorf("%s: ParseMultiple: %v", what, e)
+		}
+		if ch.Err != nil {
+			return o, fmt.Errorf("%s: ParseMultiple ends with an error after %d of %d alignments: %v", what, len(got), len(want), ch.Err)
+		}
+		if al, e2 := p.Parse(); al != nil || e2 != nil {
+			return o, fmt.Errorf("%s: after the last alignment Parse returns (%v, %v) instead of (nil, nil)", what, al != nil, e2)
+		}
+		closer.Close()
+	}
+	if e = sameList(got, want, what+", read through "+c.Reader); e != nil {
+		return o, e
+	}
+	small, large := false, false
+	order := ""
+	for i, a := range c.Alis {
+		sc := sizeClassOf(a, repAt(c.Repeat, i))
+		o.Class("stream member %s", sc)
+		if len(texts[i]) <= 4096 {
+			small = true
+			if large && order == "" {
+				order = "large before small"
+			}
+		} else {
+			large = true
+			if small && order == "" {
+				order = "small before large"
+			}
+		}
+	}
+	if order != "" {
+		o.Class("stream %s (%s)", order, extName(c.Ext))
+	}
+	o.Class("file:%s stream %s, reader %s", extName(c.Ext), textClass(total), c.Reader)
+	o.Class("stream of %d", len(c.Alis))
+	o.Class("strict=%v", c.Strict)
+	classifyPlan(&o, pieces, c.Ext)
+	// non-trivial: the stream does not fit in one buffer of the reader (4096 bytes), so the
+	// end of the list is read after the calls that opened it have returned
+	o.NonTrivial = total > 4096
+	return o, nil
+}
+
+func TestFileStream(t *testing.T) {
+	fileDir = cli.TempDir("c02fstream")
+	defer os.RemoveAll(fileDir)
+	pbt.Run(t, genFStream, checkFStream)
+}
+
+// ---- input side alone: a file compressed by the harness is read through GetReader --------------
+
 type readCase struct {
-	Ali gen.Ali `json:"ali"`
-	Cfg cfg     `json:"cfg"`
-	Ext string  `json:"ext"`
+	Ali    gen.Ali `json:"ali"`
+	Repeat int     `json:"repeat,omitempty"`
+	Cfg    cfg     `json:"cfg"`
+	Ext    string  `json:"ext"`
 }
 
 func TestCompressedInput(t *testing.T) {
@@ -196,14 +452,15 @@ func TestCompressedInput(t *testing.T) {
 		var c readCase
 		c.Cfg = genCfg(t, "cfg")
 		c.Ext = rapid.SampledFrom(exts).Draw(t, "ext")
-		c.Ali = genAli(t, domOf(c.Cfg), maxLen(), c.Cfg)
+		c.Ali, c.Repeat = genSized(t, domOf(c.Cfg), rapid.SampledFrom(singleSizes).Draw(t, "size"), c.Cfg)
 		return c
 	}, func(c readCase) (o pbt.Outcome, err error) {
-		if !c.Cfg.valid() || !inDomain(c.Ali, domOf(c.Cfg)) || (c.Ext != "" && c.Ext != ".gz" && c.Ext != ".xz") {
+		if !c.Cfg.valid() || !inDomain(c.Ali, domOf(c.Cfg)) || !validExt(c.Ext) || c.Repeat < 0 || c.Repeat > maxRepeat {
 			o.Skip = true
 			return o, nil
 		}
-		al, want, err := buildModel(c.Ali)
+		full := expand(c.Ali, c.Repeat)
+		al, want, err := buildModel(full)
 		if err != nil {
 			return o, err
 		}
@@ -225,8 +482,8 @@ func TestCompressedInput(t *testing.T) {
 		if e = same(got, want); e != nil {
 			return o, fmt.Errorf("%s file compressed as %q by an independent writer: %v", c.Cfg, c.Ext, e)
 		}
-		o.NonTrivial = classify(&o, "", c.Cfg, c.Ali)
-		o.Class("input ext=%q", c.Ext)
+		o.NonTrivial = classify(&o, "", c.Cfg, full)
+		o.Class("input %s %s", extName(c.Ext), textClass(len(text)))
 		return o, nil
 	})
 }
